@@ -186,12 +186,32 @@ FUNCTIONS.update({
     props=['C07'],
   ),
 
+  'WatermarkPoolSink._FlushCache': dict(
+    file='scales/pool/watermark.py', cls='WatermarkPoolSink',
+    requires=['allocated(self._cache)'], ensures=[],
+    modifies=['Channel.state', 'Channel.g_closes'],
+    loops={0: dict(invariant=['True'], modifies=['Channel.state', 'Channel.g_closes'])},
+    props=['C07'],
+  ),
+  # closing the pool: every waiting request is failed, once, with a service-closed error
   'WatermarkPoolSink.Close': dict(
-    file='scales/pool/watermark.py', cls='WatermarkPoolSink', trusted=True,
-    requires=[], ensures=['self._state == ChannelState.Closed'],
-    modifies=['WatermarkPoolSink._state', 'Channel.state', 'Channel.g_closes', 'deque[tuple[AnySink,any]]', 'AnySink.g_invoked'],
-    allocates=True,
-    notes='list-comprehension loops over the cache and the waiters (fail every waiter with ServiceClosedError): not yet verified as a unit',
+    file='scales/pool/watermark.py', cls='WatermarkPoolSink',
+    requires=['allocated(self._cache) and allocated(self._waiters)'],
+    ensures=['self._state == ChannelState.Closed'],
+    modifies=['WatermarkPoolSink._state', 'Channel.state', 'Channel.g_closes', 'deque[tuple[AnySink,any]]', 'AnySink.g_invoked',
+              'MethodReturnMessage.error', 'MethodReturnMessage.return_value', 'MethodReturnMessage.stack',
+              'FailingMessageSink._ex', 'ClientMessageSink._on_faulted', 'MessageSink._next', '$cls'],
+    allocates='any',
+    loops={0: dict(invariant=['callable(fail_sink._ex)', '_p0 >= old(dq_lo(self._waiters))',
+                              'dq_lo(self._waiters) == old(dq_lo(self._waiters)) and dq_hi(self._waiters) == old(dq_hi(self._waiters))'],
+                   modifies=['deque[tuple[AnySink,any]]', 'AnySink.g_invoked', 'MethodReturnMessage.error', 'MethodReturnMessage.return_value',
+                             'MethodReturnMessage.stack', '$cls'], allocates=True)},
+    ghost=[
+      # the loop visits the waiters front to back, one failure message each (FailingMessageSink posts exactly one)
+      {'before': 'fail_sink.AsyncProcessRequest(sink_stack, msg, stream, headers)', 'do': [
+        'prove(sink_stack == dq_at(self._waiters, _p0)[0], "each-waiter-in-queue-order")']},
+    ],
+    props=['C07'],
   ),
 
   'WatermarkPoolSink._Release': dict(
@@ -205,8 +225,10 @@ FUNCTIONS.update({
       'implies(len(self._cache) > old(len(self._cache)), self._current_size <= self._min_size)',
     ],
     modifies=['deque[Channel]', 'WatermarkPoolSink._current_size', 'WatermarkPoolSink._state', 'set[any]',
-              'Channel.state', 'Channel.g_closes', 'deque[tuple[AnySink,any]]', 'AnySink.g_invoked'],
-    allocates=True,
+              'Channel.state', 'Channel.g_closes', 'deque[tuple[AnySink,any]]', 'AnySink.g_invoked',
+              'MethodReturnMessage.error', 'MethodReturnMessage.return_value', 'MethodReturnMessage.stack',
+              'FailingMessageSink._ex', 'ClientMessageSink._on_faulted', 'MessageSink._next', '$cls'],
+    allocates='any',
     ghost=[
       {'after': 'self._current_size -= 1', 'do': ['self.g_lent.discard(sink)']},
       {'before': 'self._cache.append(sink)', 'do': ['self.g_lent.discard(sink)']},
@@ -220,8 +242,8 @@ FUNCTIONS.update({
     # connection may be assumed -- not that the waiter it was spawned for is still there
     requires=['allocated(sink)', 'sink in self.g_lent', 'is_real_sink(sink)'],
     ensures=[],
-    modifies=['*'], allocates=True, guar=[],
-    loops={0: dict(invariant=['PoolInv(self)', 'sink in self.g_lent'],
+    modifies=['*'], allocates='any', guar=[],
+    loops={0: dict(invariant=['PoolInv(self)', 'sink in self.g_lent'], allocates='any',
                    modifies=['deque[tuple[ClientMessageSinkStack,Message,any,any]]'])},
     ghost=[
       # FIFO: a waiter is passed over only if its call has already completed (drained stack)
